@@ -76,6 +76,50 @@ fn io_names(rng: &mut StdRng) -> String {
     src
 }
 
+/// Configuration-level names: many globals (plain, RETAIN, directly addressed), many tasks of equal priority
+/// and interval, many program instances (with and without task), enumerations and a namespace: whatever order
+/// the configuration is walked in must be the declaration order, never a hash order.
+fn conf_names(rng: &mut StdRng) -> String {
+    let n = rng.gen_range(5..14);
+    let mut ids: Vec<usize> = (0..n).collect();
+    for i in (1..ids.len()).rev() {
+        ids.swap(i, rng.gen_range(0..=i));
+    }
+    let mut src = String::new();
+    for i in &ids {
+        src.push_str(&format!("TYPE E{i} : (A{i} := 1, B{i} := 2, C{i} := 3) INT; END_TYPE\n"));
+    }
+    src.push_str("NAMESPACE Lib\n");
+    for i in &ids {
+        src.push_str(&format!("FUNCTION Inc{i} : INT\nVAR_INPUT x : INT; END_VAR\nInc{i} := x + INT#{};\nEND_FUNCTION\n", i + 1));
+    }
+    src.push_str("END_NAMESPACE\n");
+    for i in &ids {
+        src.push_str(&format!("PROGRAM PT{i}\nVAR_EXTERNAL g{i} : INT; r{i} : INT; q{i} : WORD; tick : INT; END_VAR\nVAR e : E{i} := E{i}#A{i}; n : INT; END_VAR\nn := Lib.Inc{i}(x := n);\ng{i} := g{i} + n;\nr{i} := r{i} + INT#1;\nq{i} := INT_TO_WORD(g{i});\ntick := tick + INT#1;\nIF e = E{i}#A{i} THEN e := E{i}#B{i}; ELSE e := E{i}#A{i}; END_IF;\nEND_PROGRAM\n"));
+    }
+    src.push_str("CONFIGURATION C\nVAR_GLOBAL\n  tick : INT;\n");
+    for i in &ids {
+        src.push_str(&format!("  g{i} : INT := INT#{i};\n  q{i} AT %QW{} : WORD;\n", 2 * (i % 4)));
+    }
+    src.push_str("END_VAR\nVAR_GLOBAL RETAIN\n");
+    for i in &ids {
+        src.push_str(&format!("  r{i} : INT;\n"));
+    }
+    src.push_str("END_VAR\n");
+    for i in &ids {
+        src.push_str(&format!("TASK T{i} (INTERVAL := T#{}ms, PRIORITY := {});\n", [5, 5, 10][i % 3], i % 2));
+    }
+    for i in &ids {
+        if i % 3 == 2 {
+            src.push_str(&format!("PROGRAM I{i} : PT{i};\n"));
+        } else {
+            src.push_str(&format!("PROGRAM I{i} WITH T{} : PT{i};\n", ids[(i + 1) % ids.len()]));
+        }
+    }
+    src.push_str("END_CONFIGURATION\n");
+    src
+}
+
 /// Canonical rendering of the variable state: by name, instances expanded by content (their ids and
 /// any map insertion order are representation, not state).
 fn render(st: &trust_runtime::memory::VariableStorage, v: &Value, depth: u32) -> String {
@@ -117,7 +161,9 @@ pub fn child(args: &[String]) -> i32 {
     }
     for k in order {
         let mut rng = StdRng::seed_from_u64(seed.wrapping_mul(7919).wrapping_add(k as u64));
-        let (kind, src, steps): (&str, String, Vec<J>) = if k % 4 == 2 {
+        let (kind, src, steps): (&str, String, Vec<J>) = if k % 8 == 6 {
+            ("confnames", conf_names(&mut rng), vec![])
+        } else if k % 4 == 2 {
             ("ionames", io_names(&mut rng), vec![])
         } else if k % 2 == 0 || scripts.is_empty() {
             ("names", many_names(&mut rng), vec![])
@@ -133,11 +179,13 @@ pub fn child(args: &[String]) -> i32 {
         match TestHarness::from_source(&src) {
             Ok(mut h) => {
                 let dbg = h.runtime_mut().enable_debug();
-                if kind == "names" || kind == "ionames" {
+                if kind == "names" || kind == "ionames" || kind == "confnames" {
                     for c in 0..4 {
                         h.advance_time(Duration::from_millis(7));
                         if kind == "names" {
                             h.set_input("v3", Value::Int(c));
+                        } else if kind == "confnames" {
+                            h.advance_time(Duration::from_millis(3 + c as i64));
                         } else {
                             let _ = h.set_direct_input(&format!("%IX0.{}", c % 8), Value::Bool(c % 2 == 0));
                         }
